@@ -143,6 +143,7 @@ func init() {
 				viaRoot := 0
 				seen := map[string]bool{}
 				inRoot := map[ssa.CallInstruction]bool{}
+				rootSite := map[string]bool{}
 				names := []string{"context", "nonce", "contributions", "issig"}
 				for key, roles := range createChallengeRoles {
 					root := P.Func(key)
@@ -183,9 +184,11 @@ func init() {
 									}
 								}
 							}
-							if staticCallee(c) != cc || inRoot[c] {
+							// (a site in a helper shared by two entries is examined once per entry, under that entry's binding)
+							if staticCallee(c) != cc || rootSite[key+"@"+fmt.Sprint(c.Pos())] {
 								continue
 							}
+							rootSite[key+"@"+fmt.Sprint(c.Pos())] = true
 							inRoot[c] = true
 							seen[key] = true
 							R.seen(key)
@@ -215,7 +218,10 @@ func init() {
 						R.bad("C02.f", key+":site", "tabled call site of createChallenge exists", "no call to createChallenge found in "+key+" or its helpers (challenge computed differently?)", "")
 					}
 				}
-				R.decide("C02.f", "createChallenge:callsites", "at least 6 call sites of createChallenge (or uses of a tabled entry that has one)", n+viaRoot >= 6, fmt.Sprintf("found %d", n+viaRoot), "")
+				if len(rootSite) > n {
+					n = len(rootSite)
+				}
+				R.decide("C02.f", "createChallenge:callsites", "at least 6 call sites of createChallenge (or uses of a tabled entry that has one), counted per entry", n+viaRoot >= 6, fmt.Sprintf("found %d", n+viaRoot), "")
 			}},
 		Rule{ID: "C02.g", Explain: "no order-sensitive accumulation inside a range over a map in any function that feeds a challenge (Go randomises map order).",
 			Run: func(P *Program, R *Report) { noMapOrderRule(P, R, "C02.g") }},
